@@ -8,7 +8,12 @@
 //!   and its mode: 0 connected before the run with its own `Channel::new(metrics)`; 1 connected before the run
 //!   with a clone of ONE shared template handle (built from the metrics of the first mode-1 link); 2 connected
 //!   at run time, inside the handler that first sends on the link (either direction), with `g0.channel()` -- the
-//!   live forward channel of link 0 -- as template (link 0 itself: mode 2 = mode 0).  Both instances of a link
+//!   live forward channel of link 0 -- as template (link 0 itself: mode 2 = mode 0); 3 | 4 connected before the run
+//!   with a handle that has a HISTORY: a tiny prior simulation with the link's metrics is run and stopped by a time
+//!   limit while its link is transmitting a header-only message (4: with two more messages offered behind it, queued
+//!   under a Queue policy), `gate.channel()` of that link is taken, the prior simulation is dropped completely, and
+//!   the handle is moved (not cloned) into `connect` (Channel::dup copies metrics only: the state of a template,
+//!   whatever its history, must not matter).  Both instances of a link
 //!   get the metrics of its template (Channel::dup);
 //!   the tx table and the jitter oracle are inputs of the model only (the table's (link, length) pairs are
 //!   answered here with ChannelMetrics::calculate_busy, the oracle is ignored: the real rng draws);
@@ -223,6 +228,39 @@ impl Module for Node {
     }
 }
 
+/// module of the prior simulation: the sender offers `1` messages to its port in at_sim_start
+struct Prior(u64);
+impl Module for Prior {
+    fn at_sim_start(&mut self, _stage: usize) {
+        for i in 0..self.0 {
+            send(Message::default().id(i as u16), "port");
+        }
+    }
+    fn handle_message(&mut self, _msg: Message) {}
+}
+
+/// A channel handle with a history: the forward channel of a link of a simulation that was stopped by a time
+/// limit in the middle of a transmission and then dropped completely.
+fn handle_with_history(seed: u64, metrics: ChannelMetrics, backlog: bool) -> ChannelRef {
+    let tx = metrics.calculate_busy(&Message::default()).as_nanos() as u64;
+    let mut sim = Sim::new(());
+    sim.node("p", Prior(if backlog { 3 } else { 1 }));
+    sim.node("q", Prior(0));
+    let gp = sim.gate("p", "port");
+    let gq = sim.gate("q", "port");
+    gp.clone().connect(gq, Some(Channel::new(metrics)));
+    let handle = gp.channel().expect("link has a channel");
+    drop(gp);
+    let mut builder = Builder::seeded(seed).quiet().max_time(at(tx.saturating_sub(1)));
+    if tx / 4 > 2_500_000 {
+        builder = builder.cqueue_options(1028, Duration::from_nanos(tx / 4));
+    }
+    let res = catch_unwind(AssertUnwindSafe(|| builder.build(sim.freeze()).run()));
+    std::panic::set_hook(Box::new(|_| {}));
+    drop(res);
+    handle
+}
+
 fn metrics_of(brk: u64, br: u64, lat: u64, jit: u64, pol: u64, lim: u64) -> ChannelMetrics {
     ChannelMetrics {
         bitrate: if brk == 1 { usize::MAX } else { br as usize },
@@ -353,6 +391,16 @@ fn run_line(nums: &[u64]) -> Vec<u64> {
         }
     }
 
+    // templates with a history come from prior simulations that are gone before the scripted one is built
+    let mut histories: Vec<Option<ChannelRef>> = modes
+        .iter()
+        .enumerate()
+        .map(|(i, m)| match m {
+            3 | 4 => Some(handle_with_history(seed, own[i], *m == 4)),
+            _ => None,
+        })
+        .collect();
+
     let sh: Sh = Arc::new(Mutex::new(Shared::default()));
     let mut sim = Sim::new(());
     sim.node("a", Node(false, sh.clone()));
@@ -373,6 +421,7 @@ fn run_line(nums: &[u64]) -> Vec<u64> {
         match mode {
             1 => connect_link(&sh, i, shared_template.clone().unwrap()),
             2 => {}
+            3 | 4 => connect_link(&sh, i, histories[i].take().unwrap()),
             _ => connect_link(&sh, i, Channel::new(own[i])),
         }
     }
